@@ -885,6 +885,9 @@ struct Binder {
     /// `Some(k)`: batches the model predicts to be ACCEPTED are offered only at depth < k (an
     /// accepted `bind_tokens` next to 10 000 bound tokens costs about 7 s)
     accepted_batches_below_depth: Option<usize>,
+    /// batches are probes that are never extended (every rebuild of a descendant would pay the
+    /// 7 s again)
+    batches_leaf_only: bool,
 }
 
 struct BindInst {
@@ -1169,7 +1172,7 @@ impl World for Binder {
     }
 
     fn leaf_only(&self, op: &BindOp) -> bool {
-        matches!(op, BindOp::BigBatch(_))
+        matches!(op, BindOp::BigBatch(_)) || (self.batches_leaf_only && matches!(op, BindOp::Batch(_)))
     }
 
     fn apply(&self, i: &mut BindInst, op: &BindOp) {
@@ -1220,6 +1223,7 @@ fn binder_worlds(tier: Tier) -> Vec<(Binder, usize)> {
                 big: vec![200, 201],
                 full_index_scan_up_to: 1000,
                 accepted_batches_below_depth: None,
+                batches_leaf_only: false,
             },
             tier.pick(5, 7),
         ),
@@ -1232,6 +1236,7 @@ fn binder_worlds(tier: Tier) -> Vec<(Binder, usize)> {
                 big: vec![],
                 full_index_scan_up_to: 1000,
                 accepted_batches_below_depth: None,
+                batches_leaf_only: false,
             },
             tier.pick(3, 4),
         ),
@@ -1243,7 +1248,8 @@ fn binder_worlds(tier: Tier) -> Vec<(Binder, usize)> {
                 batches: vec![vec![0, 1], vec![0, 1, 2]],
                 big: vec![],
                 full_index_scan_up_to: 0,
-                accepted_batches_below_depth: Some(tier.pick(0, 1)),
+                accepted_batches_below_depth: Some(tier.pick(0, 2)),
+                batches_leaf_only: true,
             },
             tier.pick(2, 3),
         ),
